@@ -138,7 +138,7 @@ claim("C16", "proof",
       "in BOTH implementations (pre-C++20 operators and operator<=>) equal the documented order for all 11 primitive types "
       "and all values incl. NaN/inf (axiom-free IEEE comparison on bit patterns, cross-checked against Flocq); the 33 "
       "generator default literals denote the SBE defaults; explicit integer attribute texts are reproduced exactly. "
-      "Correspondence: 22 built-in + 79 generated types, full boundary cross product, C++11/17/20, 37k static_asserts. Translator: the default min/max/null literal maps of types_compiler.hpp and the SBEPP_BUILT_IN_IMPL invocations of sbepp.hpp are regenerated into Coq on every run and proved to denote the SBE defaults (C16_source_*). SOURCE TRANSLATOR (harness/srcexprs.py -> coq/SrcExprs.v, regenerated on every run from clang's typed AST of /repo's optional_base<T, Derived> for the eight integer types, every call inlined, Derived::min/max/null_value() arbitrary): has_value, in_range and the six pre-C++20 comparison operators follow the documented rules for all values (C16_source_optional_follows_documented_rules, C16_documented_rules_spelled_out).",
+      "Correspondence: 22 built-in + 79 generated types, full boundary cross product, C++11/17/20, 37k static_asserts. Translator: the default min/max/null literal maps of types_compiler.hpp and the SBEPP_BUILT_IN_IMPL invocations of sbepp.hpp are regenerated into Coq on every run and proved to denote the SBE defaults (C16_source_*). SOURCE TRANSLATOR (harness/srcexprs.py -> coq/SrcExprs.v, regenerated on every run from clang's typed AST of /repo's optional_base<T, Derived> for the eight integer types, every call inlined, Derived::min/max/null_value() arbitrary): has_value, in_range and the six pre-C++20 comparison operators follow the documented rules for all values (C16_source_optional_follows_documented_rules, C16_documented_rules_spelled_out); required_base: the six comparison operators compare the underlying values and in_range is min <= value <= max (C16_source_required_compares_values, C16_source_required_in_range).",
       TB + " Decimal floating-point attribute literals are checked by the differential run only.",
       "Coq proof (order/null algebra incl. IEEE-754 compare on bit patterns; finite literal tables by vm_compute) + differential correspondence + expression-level source translator (clang AST -> Coq terms, theorems about the regenerated terms)")
 claim("C17", "proof",
